@@ -200,7 +200,8 @@ def _replay_crash(rec, path):
                        text=True)
     want = (rec.get("cls") or {}).get("type")
     return [l[len(mark):] for l in r.stdout.splitlines()
-            if l.startswith(mark) and ("raised %s:" % want) in l]
+            if l.startswith(mark) and (("raised %s:" % want) in l or
+                                       want == "ObjectInvariantBroken")]
 
 
 def _report_crash(prop, tier, info, shard):
